@@ -612,8 +612,9 @@ class H2Server:
                             # truncated body: reset or close instead of finishing
                             resp = p["resp"]
                             self.pending_out.pop(sid, None)
-                            if getattr(resp, "truncate_how", "rst") == "rst":
-                                self.conn.reset_stream(sid, 2)
+                            how = getattr(resp, "truncate_how", "rst")
+                            if how.startswith("rst"):
+                                self.conn.reset_stream(sid, int(how.split(":")[1]) if ":" in how else 2)
                                 self.ledger.server_reset(sid)
                             else:
                                 self._flush()
